@@ -2,6 +2,9 @@
 from . import rtprop, rtcheck
 
 THEOREMS = ['FlexVerif.validate_sound', 'FlexVerif.validate_first_rule', 'FlexVerif.Ser.decSet_encSet']
+# the state-walking code of the four compressed table variants and of both skeletons computes the same decoders' step
+THEOREMS += ['FlexVerif.C01StepGen.prevState_all', 'FlexVerif.C01StepGen.nulTrans_all', 'FlexVerif.C01StepC99.prevState_same',
+             'FlexVerif.C01StepC99.nulTrans_same']
 
 
 def post(ctx, results):
@@ -15,6 +18,10 @@ def post(ctx, results):
 
 
 def run(ctx):
+    from . import c01
+    info, err = c01.regen_prevstate()
+    if err:
+        ctx.violation('translator of yy_get_previous_state() / yy_try_NUL_trans() gave up: ' + err, {'error': err}, no_input=True)
     n = {'quick': 240, 'thorough': 2 * len(rtcheck.MATRIX)}[ctx.tier]
     plan = [('matrix', n, 4), ('sertrail', {'quick': 32, 'thorough': 300}[ctx.tier], 4)]
     return rtprop.run(ctx, THEOREMS, plan, 'exploration',
